@@ -12,7 +12,8 @@ from vlib.spec import build, spec_scope
 ID = "C11"
 BUDGET = {"quick": 1600, "thorough": 48000}
 RULE = ("Generated: smooth&decomposable DAGs whose inputs implement integrate() (categorical probs and logits, "
-        "binomial probs/logits, Gaussian with/without log-partition), constants, Hadamard/Kronecker, n-ary sums, "
+        "binomial probs/logits, Gaussian with/without log-partition; categorical probabilities given through softmax or as a "
+        "plain normalised tensor with entries that are exactly zero, e.g. one-hot rows), constants, Hadamard/Kronecker, n-ary sums, "
         "1..3 outputs, renumbered variables x semiring x fold x optimize x batch class (1, 2, 3, 5, a fold count); "
         "integrate_vars in all accepted forms: bool mask (B,D), mask (D,), one Scope, a list of 1 or B scopes, "
         "incl. empty scopes and a different scope per row; plus variables outside the scope (must raise "
@@ -32,7 +33,9 @@ def _case(draw, tier):
     big = tier == "thorough"
     cfg = opcheck.draw_cfg(draw, semirings=("sum-product", "lse-sum", "complex-lse-sum"))
     kw = dict(max_vars=5 if big else 4, max_K=3, input_types=INPUTS, ncat_max=3, with_const=True,
-              same_scope_outputs=True)
+              same_scope_outputs=True,
+              # also normalised categorical probabilities with entries that are EXACTLY zero (e.g. one-hot rows)
+              cat_kinds=["softmax", "logsoftmax-exp", "simplex0"])
     if cfg["semiring"] == "lse-sum":
         kw.update(nonneg=True)
     spec = draw(gen.sd_circuit(**kw))
